@@ -104,6 +104,34 @@ def run(ctx):
             except Exception:
                 pass
             check_req(parts, wire, "after_mutating_an_earlier_result")
+    # the same messages with one part made large (far beyond what TLC is handed byte by byte): inflating a header value, a
+    # parameter value, the path or the body with a filler that contains no delimiter inflates exactly that part of the result.
+    # Sizes put the end of the header block just below, at and above 64 KiB, and far above.
+    rng0 = random.Random(ctx.seed * 13 + 160)
+    infl = [r_ for r_ in tab["req"] if r_["parts"]["headers"] and r_["parts"]["params"]]
+    infl = infl[:: max(1, len(infl) // (12 if q else 80))]
+    n_infl = 0
+    for row in infl:
+        p = row["parts"]
+        for field in ("header", "param", "path", "body"):
+            parts = {"method": B(p["method"]), "path": B(p["path"]), "params": kv(p["params"]), "headers": kv(p["headers"]), "body": B(p["body"])}
+            base_hdr_end = len(req_wire(parts, row["plus"])) - len(parts["body"])
+            n = rng0.choice([65536 - base_hdr_end + d for d in (-5, -4, -3, -2, -1, 0, 1, 2, 3, 4, 5)] + [70000, 200001])
+            fill = b"x" * n
+            if field == "header":
+                k, v = parts["headers"][-1]
+                parts["headers"][-1] = (k, v + fill)
+            elif field == "param":
+                k, v = parts["params"][0]
+                parts["params"][0] = (k, v + fill)
+            elif field == "path":
+                parts["path"] = parts["path"] + fill
+            else:
+                parts["body"] = parts["body"] + fill + b"\r\n\r\nmore"
+            check_req(parts, req_wire(parts, row["plus"]), "inflated_" + field)
+            n_infl += 1
+    ctx.traces += n_infl
+    ctx.notes["inflated_messages"] = n_infl
     for row in tab["resp"]:
         p = row["parts"]
         parts = {"status": p["status"], "reason": B(p["reason"]), "headers": kv(p["headers"]), "body": B(p["body"])}
